@@ -15,7 +15,7 @@ var longComp = strings.Repeat("L", 60) + "-" + strings.Repeat("n", 59)
 var nameUniverse = []string{"a", "ab", "a_", "a%", "a.b", "a b", "ä", "aä", ".h", "%", "_", "x.gz", "y.zst", "z.age", "w.pgp", longComp, "A", "AB", "Ä"} // incl. names that differ only in case
 
 // exotic components: characters that are special to tar, SQL, shells, globbing, Go path handling or terminals
-var exoticNames = []string{"...", "a\nb", "a\\b", "it's", "a*", "a?", "[a]", "a:b", "trail ", "dot.", "\U0001F600", "a\tb", "\"q\"", "-rf", "~", "a;b", "$x", "a=b", "#", "caf\xe9-latin1", strings.Repeat("z", 300)}
+var exoticNames = []string{"...", "..a", "a\nb", "a\\b", "it's", "a*", "a?", "[a]", "a:b", "trail ", "dot.", "\U0001F600", "a\tb", "\"q\"", "-rf", "~", "a;b", "$x", "a=b", "#", "caf\xe9-latin1", strings.Repeat("z", 300)}
 
 func hasCodecSuffix(n string) bool {
 	for _, s := range []string{".gz", ".lz4", ".zst", ".br", ".bz2", ".age", ".pgp"} {
@@ -227,6 +227,10 @@ func (g *Gen) exoticise(op *Op) {
 	case "mkdir", "mkdirall", "create", "write", "read", "remove", "removeall", "rename", "chmod", "chown", "chtimes", "stat", "list":
 		if r.Intn(4) == 0 {
 			op.Spell = 1 + r.Intn(6)
+		}
+		if op.K == "rename" && r.Intn(4) == 0 {
+			// source and destination spelled differently (relative source, absolute destination, ...)
+			op.SpellB = r.Intn(8) - 1
 		}
 	}
 }
@@ -458,14 +462,22 @@ func (g *Gen) next(t Tree) Op {
 				} else {
 					dst = g.newPath(t, t[src].Kind == "f")
 				}
-			case v < 16:
-				dst = path.Join(src, g.pick(g.o.Comps))
+			case v < 17:
+				// into the own subtree; a third of these below a component that starts or ends with dots
+				c1 := g.pick(g.o.Comps)
+				if r.Intn(3) == 0 {
+					c1 = []string{"..a", "...", "a..", ".a", "..a b"}[r.Intn(5)]
+				}
+				dst = src + "/" + c1
+				if src == "/" {
+					dst = "/" + c1
+				}
 				if r.Intn(2) == 0 {
 					dst = path.Join(dst, g.pick(g.o.Comps))
 				}
-			case v < 17:
-				dst = src
 			case v < 18:
+				dst = src
+			case v < 19:
 				dst = path.Join(g.missingPath(t), g.pick(g.o.Comps))
 			default:
 				dst = g.newPath(t, t[src].Kind == "f")
